@@ -2,7 +2,7 @@ CONSTANTS
   Rules <- RulesQuick
   ReqsR <- ReqsRQuick
   MaxRules = 2
-  Defects = {}
+  Defects = {"DslErrorHolds"}
 SPECIFICATION Spec
-INVARIANTS FirstWins NoneOnlyIfNone EarlierDoNotHold KvIsFirstIndexed HandlerIsMatchRoute
+INVARIANTS FirstWins
 CHECK_DEADLOCK FALSE
